@@ -364,6 +364,8 @@ func (r *Runner) step(i int) {
 	tent := map[string]uint64{}
 	if modelled {
 		r.checkModel(i, s, pred, t0, tent)
+	} else if s.IsScenario() {
+		r.checkScenario(i, s, t0)
 	} else if s.Kind == "deploy" && t0.Class != "ok" {
 		panic(fmt.Sprintf("harness: deploy of %s failed: %v", s.Name, t0.Err))
 	}
@@ -1144,7 +1146,10 @@ func (r *Runner) health(i int, n *Node) {
 		sort.Slice(mu, func(a, b int) bool { return mu[a] < mu[b] })
 		var su []uint64
 		for u := range seen {
-			su = append(su, u)
+			// scenario steps keep their resources in account 0x9, outside the model's accounts
+			if o := rep.UUIDOwner[u]; o >= 1 && o <= uint64(r.P.NAccts) {
+				su = append(su, u)
+			}
 		}
 		sort.Slice(su, func(a, b int) bool { return su[a] < su[b] })
 		if r.modelTracksResources() && fmt.Sprint(mu) != fmt.Sprint(su) {
@@ -1174,7 +1179,7 @@ func (r *Runner) health(i int, n *Node) {
 // modelTracksResources: raw steps may create state the model does not know about.
 func (r *Runner) modelTracksResources() bool {
 	for _, s := range r.P.Steps {
-		if s.Kind == "rawtx" {
+		if s.Kind == "rawtx" && !s.IsScenario() {
 			return false
 		}
 	}
@@ -1215,5 +1220,39 @@ func (r *Runner) probes(n *Node) {
 		if len(v) > r.Stats.Probes["max_register_bytes"] {
 			r.Stats.Probes["max_register_bytes"] = len(v)
 		}
+	}
+}
+
+// checkScenario compares the primary's execution of a scenario step with its hand-written expectation. Mismatches are attributed
+// to the property the scenario is about (attachments: C49, resource movement: C02); for the others to the pseudo-property "SCN",
+// which no check claims (it shows up under foreign_violations in the evidence): those scenarios are judged by replica agreement.
+func (r *Runner) checkScenario(i int, s *Step, t *Transcript) {
+	prop := "SCN"
+	switch {
+	case strings.HasPrefix(s.Name, "scn:attachments"):
+		prop = "C49"
+	case strings.HasPrefix(s.Name, "scn:copy-"):
+		prop = "C05"
+	case strings.HasPrefix(s.Name, "scn:resource-juggling"), strings.HasPrefix(s.Name, "scn:foreign-"):
+		prop = "C02"
+	}
+	r.Stats.Probes["scenario_steps"]++
+	name := r.Nodes[0].Cfg.Name
+	if s.Fails != "" {
+		if t.Class == "ok" {
+			r.violate(prop, "scenario.outcome", i, name, "scn-unexpected-success", "%s must fail with %s but succeeded (result %s)", s.Name, s.Fails, t.Result)
+		} else if t.Class == "user" && !strings.Contains(t.ErrType, s.Fails) {
+			r.violate(prop, "scenario.outcome", i, name, "scn-wrong-error", "%s must fail with %s, got %s: %s", s.Name, s.Fails, t.ErrType, t.ErrMsg)
+		}
+		return
+	}
+	if t.Class != "ok" {
+		if t.Class == "user" {
+			r.violate(prop, "scenario.outcome", i, name, "scn-unexpected-failure", "%s must succeed, failed with %s: %s", s.Name, t.ErrType, clip(fmt.Sprint(t.Err), 1500))
+		}
+		return // internal / escaped: reported by the C01 monitor
+	}
+	if s.HasExpect && len(s.Expect) > 0 && fmt.Sprint(t.Logs) != fmt.Sprint(s.Expect) {
+		r.violate(prop, "scenario.logs", i, name, "scn-logs", "%s logged %v, expected %v", s.Name, t.Logs, s.Expect)
 	}
 }
